@@ -55,16 +55,26 @@ def canonicalize_url(
     if strip_fragment:
         fragment = None
 
+    # Path normalization
+    # NOTE: escaped dots are dots ("%2E%2E" is ".."), hence unquoting first.
+    # A path ending with a slash (or with a dot segment, which resolves to a
+    # directory) keeps its trailing slash, that normpath drops.
+    path = safely_unquote_path(path)
+
+    if path:
+        trailing_slash = path.endswith(("/", "/.", "/.."))
+        path = normpath(path)
+
+        if trailing_slash and path:
+            path += "/"
+
     # Empty path etc.
+    # NOTE: this must come after path normalization ("/a/.." is "/")
     if not path or path == "/":
         if not query and not fragment:
             path = ""
         else:
             path = "/"
-
-    # Path normalization
-    else:
-        path = normpath(path)
 
     # Quotes
     if user:
@@ -81,8 +91,6 @@ def canonicalize_url(
 
     if quoted:
         path = safely_quote(path)
-    else:
-        path = safely_unquote_path(path)
 
     qsl = safe_qsl_iter(query)
 
